@@ -81,6 +81,17 @@ Theorem C01_call_one_element : forall n r f v f',
              /\ cst f' = cstadd (cst f) v.
 Proof. exact (peval_call_one_element text re_at isalnum isalpha lower upper ic unsafe rules ec act lineat). Qed.
 
+(* the exact guard: the caller's elements grow by exactly the rule's value, unless that value is None (D1b) or an open list (D1a);
+   a rule body without an override never yields an open list *)
+Theorem C01_call_one_element_exact : forall n r f v f',
+  peval' (S n) (Call r) f = Ok v f' -> v <> VNone -> islist v = false ->
+  items (cst f') = items (cst f) ++ [v].
+Proof. exact (peval_call_one_element_exact text re_at isalnum isalpha lower upper ic unsafe rules ec act lineat). Qed.
+
+Theorem C01_rule_value_closed_without_override : forall f,
+  ast_get (fast f) key_at = None -> islist (fold f) = false.
+Proof. exact fold_closed. Qed.
+
 (* the engine that actually runs (memo, guards, pruning) computes this semantics (C04's theorem) *)
 Theorem C01_faithful_is_clean :
   (forall r rl, get_rule rules r = Some rl -> r_lrec rl = false) ->
@@ -120,5 +131,7 @@ Print Assumptions C01_neg_lookahead_iff.
 Print Assumptions C01_closure_shape.
 Print Assumptions C01_repetition_progress.
 Print Assumptions C01_call_one_element.
+Print Assumptions C01_call_one_element_exact.
+Print Assumptions C01_rule_value_closed_without_override.
 Print Assumptions C01_faithful_is_clean.
 Print Assumptions C01_rule_value_one_element_refuted.
